@@ -20,7 +20,9 @@ def run(c):
               "midnight-switching zones, week start 0-6 through the real calcUTCOffset or an arbitrary utc offset, width, mode, extend, "
               "0-3 metrics with resolution and offset) drawn from range shapes (recent, on/around every LOD switch, long, grid "
               "aligned, around the 7680 point limit, future, inside one bucket, degenerate), plus mathDiv/roundTime/calcUTCOffset "
-              "probes; each tuple is run through the real GetTimescale and Timescale.GetLODs and through the compiled Lean model; "
+              "probes; monthly queries carry time shifts N*31d (as the API computes them) and GetLODs is called for every shift, LOD.IndexOf is "
+              "probed on grid and off-grid instants of every range; each tuple is run through the real GetTimescale, Timescale.GetLODs and "
+              "LOD.IndexOf and through the compiled Lean model; "
               "9 range shapes in total incl. straddling one LOD switch with a short tail; non-trivial = the returned axis has >= 2 levels of detail or the call hit the point limit; distinct by op lines")
     c.assumptions += [
         "Go's time package (zone rules, AddDate, Date) is data, not model: monthly cases hand the model the month boundaries "
@@ -64,7 +66,10 @@ META = {
              "step of the finest level reaches End, the extend point is exactly that next point and ViewEndX counts the points before it "
              "(range_end_covered, via a whole-walk invariant of the level loop and table facts decided on the regenerated tables); "
              "GetLODs ranges are contiguous, start at Time[0] and enumerate exactly Time, and with a metric offset they are the same "
-             "ranges translated by it (lods_with_offset_translated; every metric offset is a multiple of the coarsest step); point "
+             "ranges translated by it (lods_with_offset_translated; every metric offset is a multiple of the coarsest step); for EVERY time "
+             "shift each returned range lies on the grid of its step (month starts for the monthly step, i.e. the shifted start is "
+             "re-aligned), holds exactly the level's Len grid points and LOD.IndexOf is defined for each of them (lods_shifted_on_grid; the "
+             "un-realigned variant start := Time[0]-offset is refuted by a decide witness); point "
              "queries use exactly one level and return an aligned [from, to) with from < to inside the request (covering it with extend); mathDiv is floor "
              "division; roundTime is the aligned floor; calcUTCOffset aligns 7d steps to the configured week start. The model is tied "
              "to the code by running each generated tuple through the real functions and the compiled model and diffing the full "
@@ -75,6 +80,11 @@ META = {
              "package as data (month boundaries are observed, CalOK is assumed for the theorems and checked on the observed "
              "boundaries). Defect found by this check and fixed in /repo (4a206645, fixes/C22-month-start.diff): in zones where 00:00 "
              "of the 1st does not exist (DST switched on at midnight: America/Asuncion 2000-10-01 and 2017-10-01, Europe/Moscow "
-             "1981-04-01, ...) StepForward/startOfLOD left the month grid; the old behaviour is kept as a decide witness (calGapOld)."),
+             "1981-04-01, ...) StepForward/startOfLOD left the month grid; the old behaviour is kept as a decide witness (calGapOld). "
+             "Second defect of the same kind, proposed fix fixes/C22-indexof-month.diff (not yet in /repo): LOD.IndexOf still steps months with "
+             "AddDate(0,1,0) and answers 'out of range' for every month start after such a gap month (sig lod-indexof-undefined); until it "
+             "is committed bin/check C22 reports that VIOLATION on /repo and is green with VERIF_REPO pointing at the patched tree. "
+             "Oracle signatures for shifted ranges: lod-range-misaligned, lod-points-mismatch, lod-indexof-undefined (distinct from the "
+             "known finding month-offset-coverage, which is about the axis length under a metric offset)."),
     "design_ref": "DESIGN.md §6 C22",
 }
